@@ -1,6 +1,7 @@
 (* C07 — Generated enum conversions are total, invertible and never undefined. *)
 From Coq Require Import ZArith List Bool String.
 From DD Require Import Common Mir GenErr Enum EnumProofs.
+From DD Require Carrier Bits BitsSpec BitsRoundtrip RawBridge.
 Import ListNotations.
 Open Scope string_scope.
 Open Scope Z_scope.
@@ -283,6 +284,35 @@ Proof.
   destruct Hs as [<-|[]]. cbn in Hc. destruct Hc as [<-|[<-|[]]]; reflexivity.
 Qed.
 
+(* ---------------- tie to the bit operations (RawBridge.v) ----------------
+   `raw_of_pattern` above is the enum model's account of what a getter hands to the conversion.  It is not an
+   assumption: for every byte/bit order, every buffer and every in-bounds range, the model of `ops::load_*`
+   (Bits.v, tied to device-driver/src/ops.rs by the exhaustive correspondence of C01) through the carrier the
+   generator chooses (carrier_bits w wide, signed iff the base type is `int`) returns exactly
+   raw_of_pattern base w p for the field's bit pattern p, and 0 <= p < 2^w — the range
+   C07_infallible_getter_total quantifies over. *)
+Theorem C07_loaded_raw_is_a_pattern : forall ptrw bo bito c data s e (b : base_type),
+  BitsRoundtrip.guard ptrw c data s e ->
+  bits (Carrier.cty_ity ptrw c) = carrier_bits (e - s) ->
+  signed (Carrier.cty_ity ptrw c) = (match b with BInt => true | _ => false end) ->
+  let p := BitsSpec.spec_load bo bito data s e in
+  0 <= p < 2 ^ (e - s) /\
+  Bits.load ptrw bo bito c data s e = Some (Ok (raw_of_pattern b (e - s) p)).
+Proof. exact RawBridge.loaded_raw_is_pattern. Qed.
+
+(* an i8 field filling its carrier reads 0xFF as -1; a 4-bit int field on the same carrier reads 0xF as 15 *)
+Example C07_loaded_raw_instances :
+  Bits.load 64 Bits.LE Bits.LSB0 Carrier.I8 [0xFF] 0 8 = Some (Ok (raw_of_pattern BInt 8 255)) /\
+  raw_of_pattern BInt 8 255 = -1 /\
+  Bits.load 64 Bits.LE Bits.LSB0 Carrier.I8 [0xFF] 0 4 = Some (Ok (raw_of_pattern BInt 4 15)) /\
+  raw_of_pattern BInt 4 15 = 15 /\
+  BitsRoundtrip.guard 64 Carrier.I8 [0xFF] 0 4 /\ bits (Carrier.cty_ity 64 Carrier.I8) = carrier_bits (4 - 0).
+Proof.
+  split; [vm_compute; reflexivity|]. split; [vm_compute; reflexivity|].
+  split; [vm_compute; reflexivity|]. split; [vm_compute; reflexivity|].
+  split; [apply BitsRoundtrip.guardb_sound; vm_compute; reflexivity|vm_compute; reflexivity].
+Qed.
+
 Print Assumptions C07_from_num_precedence.
 Print Assumptions C07_error_payload.
 Print Assumptions C07_roundtrip.
@@ -292,3 +322,4 @@ Print Assumptions C07_cfg_reuse_refuted.
 Print Assumptions C07_infallible_getter_total_partial.
 Print Assumptions C07_infallible_getter_total_any_build.
 Print Assumptions C07_infallible_getter_total_any_build_current_pass.
+Print Assumptions C07_loaded_raw_is_a_pattern.
